@@ -67,7 +67,7 @@ SPEC = {
     'gen_obligations': ['AITB.POMDP.src_blind_start_is_min', 'AITB.POMDP.src_fib_start_is_max', 'AITB.POMDP.src_fib_inner_is_max'],
     'harness': 'harness/c03.cpp',
     'level': 'proof',
-    'timeout': {'quick': 900, 'thorough': 3000},
+    'timeout': {'quick': 900, 'thorough': 1800},
     'case_timeout': 240,
     'classify_crash': classify_crash,
     'rule': 'one case = one (POMDP, solver) pair; 12 fixed POMDPs (Tiger, 1-state clamp witnesses, corner/face initial beliefs, all-negative rewards, two S=5 GapMin regression instances) then '
